@@ -511,59 +511,64 @@ Proof. vm_compute. repeat split; reflexivity. Qed.
 (* ==================================================================== *)
 (* The loader guarantee [shared_closed] is no longer an assumption: it FOLLOWS,
    for every combination of the options, from the computable document
-   well-formedness [doc_wf mt d] =
+   well-formedness [doc_wf d] (neither the options nor the merge table in it) =
      same_oid_same_tree d   two anchored occurrences that are one object (same
                             oid) are the same tree - what sharing an alias
                             object means for a tree that repeats a shared
                             object wherever it is reachable;
-     c07_keys_leaf d        mapping keys and set members are scalars;
-     merged_closed mt d []  a merged-in entry holds only anchored objects met
-                            before in document order (`<<: *x` names a mapping
-                            that stands earlier in the document).
+     c07_keys_leaf d        mapping keys and set members are scalars.
+   (A third part, merged_closed - a merged-in entry holds only anchored objects
+   met before - was a real restriction, false for an inline merge source that
+   first defines an anchor; it is gone since search_for_paths / yield_children
+   walk a hidden merged-in entry with record_anchors.)
    harness/c07.py evaluates the EXTRACTED predicate on every encoded document
    of every run (request paths-docwf), next to an independent evaluation on the
    real object graph, so the hypothesis is tested on real loaded documents. *)
 From YP Require Import PathsDocWf PathsDocWfMain.
 
 Theorem C07_shared_closed_from_wf :
-  forall (mt : mtable) (d : node), doc_wf mt d = true -> forall o, shared_closed mt o d [] = true.
+  forall (mt : mtable) (d : node), doc_wf d = true -> forall o, shared_closed mt o d [] = true.
 Proof. exact doc_wf_shared_closed. Qed.
 Print Assumptions C07_shared_closed_from_wf.
 
 Theorem C07_alias_excluded_wf_partial :
   forall lit re_search (mt : mtable) (tm : terms) (sp : sep) (o : opts) (d : node) (res : list hit),
     o_anchors o = false -> o_expand o = false -> names_consistent (anc_occs d) = true ->
-    doc_wf mt d = true ->
+    doc_wf d = true ->
     search_doc lit re_search mt tm sp o d = Ok res ->
     forall h, In h res -> vjustified lit re_search tm mt o d h.
 Proof. exact alias_excluded_wf. Qed.
 Print Assumptions C07_alias_excluded_wf_partial.
 
-(* where [merged_closed] fails: `a: {<<: {k: &v hit}}` / `b: *v`, =hit, default
-   alias options.  The merge source is an inline mapping that defines &v for the
-   first time; the merged-in a.k is hidden, &v is never recorded, and the alias
-   b is reported (replayed on the real code: ['b']).  Under the Coq reading b is
-   an aliased repeat (its original lies in a part the search does not enter);
-   the judge's reading takes merged-in entries out of the document when both
-   alias options are off and accepts b. *)
-Theorem C07_inline_merge_refuted :
-  same_oid_same_tree dw_doc = true /\ c07_keys_leaf dw_doc = true /\ names_consistent (anc_occs dw_doc) = true /\
-  merged_closed dw_mt dw_doc [] = false /\ shared_closed dw_mt dw_opts dw_doc [] = false /\
-  search_doc dw_lit dw_re dw_mt (mkterms false MEquals "*" "hit") Dot dw_opts dw_doc =
-    Ok [mkhit "b" [RKey (PStr "b")] HValue] /\
-  is_repeat (flat_map entry_occs (firstn 1 [(dw_leaf 1 "a", NMap (dw_i 2) [(dw_leaf 3 "k", dw_v)])])) dw_v = true.
-Proof. exact inline_merge_witness. Qed.
-Print Assumptions C07_inline_merge_refuted.
+(* the former witness C07_inline_merge_refuted, now a positive example:
+   `a: {<<: {k: &v hit}}` / `b: *v`, =hit.  The merge source is an inline mapping
+   that defines &v for the first time.  With the default alias options the
+   merged-in a.k is hidden but walked by record_anchors, so &v is on record, the
+   alias b is an aliased repeat (is_repeat) and nothing is reported (was: ['b']);
+   [doc_wf] and [names_consistent] hold, so C07_alias_excluded_wf_partial applies
+   to this document.  With both alias options on, a.k and b are reported.  With
+   an own key j: *v in front of the merge (items() order: own keys first) a.j is
+   the original and is the one report. *)
+Example C07_inline_merge_repaired :
+  doc_wf dw_doc = true /\ names_consistent (anc_occs dw_doc) = true /\
+  shared_closed dw_mt dw_opts dw_doc [] = true /\
+  is_repeat (flat_map entry_occs (firstn 1 [(dw_leaf 1 "a", NMap (dw_i 2) [(dw_leaf 3 "k", dw_v)])])) dw_v = true /\
+  search_doc dw_lit dw_re dw_mt (mkterms false MEquals "*" "hit") Dot dw_opts dw_doc = Ok [] /\
+  search_doc dw_lit dw_re dw_mt (mkterms false MEquals "*" "hit") Dot dw_opts_all dw_doc =
+    Ok [mkhit "a.k" [RKey (PStr "a"); RKey (PStr "k")] HValue; mkhit "b" [RKey (PStr "b")] HValue] /\
+  search_doc dw_lit dw_re dw_mt_j (mkterms false MEquals "*" "hit") Dot dw_opts dw_doc_j =
+    Ok [mkhit "a.j" [RKey (PStr "a"); RKey (PStr "j")] HValue].
+Proof. exact inline_merge_repaired. Qed.
 
 (* non-vacuity: anchor + merge through an alias + alias of a value *)
 Example C07_doc_wf_example :
-  doc_wf dw_mt2 dw_doc2 = true /\ names_consistent (anc_occs dw_doc2) = true /\
+  doc_wf dw_doc2 = true /\ names_consistent (anc_occs dw_doc2) = true /\
   search_doc dw_lit dw_re dw_mt2 (mkterms false MEquals "*" "hit") Dot dw_opts dw_doc2 =
     Ok [mkhit "x.k" [RKey (PStr "x"); RKey (PStr "k")] HValue].
 Proof. exact doc_wf_example. Qed.
 
 Example C07_doc_wf_guards_hold :
-  doc_wf C07_mt3 C07_doc3 = true /\ doc_wf [] C07_doc_prune = true /\ doc_wf [] C07_doc_keyalias = true.
+  doc_wf C07_doc3 = true /\ doc_wf C07_doc_prune = true /\ doc_wf C07_doc_keyalias = true.
 Proof. vm_compute. repeat split; reflexivity. Qed.
 
 (* ==================================================================== *)
